@@ -1,4 +1,468 @@
-/- Model for area `executor` (stub). -/
+/-
+  Model of the conductor's executor bookkeeping (property C10):
+
+  * `crates/astria-conductor/src/executor/mod.rs`: `Initialized::{execute_soft, execute_firm,
+    update_commitment_state, should_execute_firm_block, is_spread_too_large, run_event_loop}`,
+    `does_block_response_fulfill_contract`, `Update::{OnlySoft, OnlyFirm, ToSame}`,
+    `blocks_pending_finalization`;
+  * `crates/astria-conductor/src/state.rs`: `State` (session parameters + commitment state),
+    `next_expected_{soft,firm}_sequencer_height`, `try_map_sequencer_height_to_rollup_height`,
+    `StateSender::try_update_commitment_state`;
+  * `crates/astria-core/src/execution/v2/mod.rs`: `CommitmentStateBuilder::build` (firm ≤ soft);
+  * `crates/astria-conductor/src/block_cache.rs`: `BlockCache::{with_next_height, insert, pop,
+    drop_obsolete}`;
+  * a contract-enforcing rollup (`Rollup`): the fake execution-API server of the harness
+    (`/verif/harness/conductor/executor.rs`) is this state machine, line by line.
+
+  Everything is over `Nat`; the harness keeps all heights and numbers far below `2^62`, so the
+  `checked_add`/`u64`/`tendermint::Height` overflow branches of the Rust code are not reachable
+  (stated as an assumption of the check).
+-/
 namespace Astria.Conductor
+
+/-! ## Configuration of an execution session -/
+
+/-- `config::CommitLevel`. -/
+inductive Mode where
+  | softOnly | firmOnly | softAndFirm
+  deriving DecidableEq, Repr
+
+def Mode.withFirm : Mode → Bool
+  | .softOnly => false
+  | _ => true
+
+def Mode.withSoft : Mode → Bool
+  | .firmOnly => false
+  | _ => true
+
+/-- What `CreateExecutionSession` returns (the parts the executor's bookkeeping reads) plus the
+    conductor's commit level. `firm0`/`soft0` are the rollup block numbers of the initial
+    commitment state. -/
+structure Cfg where
+  mode : Mode
+  seqStart : Nat        -- sequencer_start_block_height
+  rollupStart : Nat     -- rollup_start_block_number
+  firm0 : Nat
+  soft0 : Nat
+  cel0 : Nat            -- lowest_celestia_search_height
+  lookahead : Nat       -- celestia_search_height_max_look_ahead
+  deriving DecidableEq, Repr
+
+/-- A rollup block as the execution API reports it (`ExecutedBlockMetadata`): number, hash
+    (`id`), parent hash (`parent`) and the sequencer height encoded in its
+    `sequencer_block_hash` (`seq`). -/
+structure Blk where
+  number : Nat
+  id : Nat
+  parent : Nat
+  seq : Nat
+  deriving DecidableEq, Repr
+
+/-- `CommitmentState`. -/
+structure Commit where
+  firm : Blk
+  soft : Blk
+  cel : Nat
+  deriving DecidableEq, Repr
+
+/-- `State::next_expected_{soft,firm}_sequencer_height` for a commitment at rollup number `n`:
+    `map_rollup_number_to_sequencer_height(S, R, n).increment()` = `S + n - R + 1`.
+    (For `R ≤ n + 1` and `S ≥ 1`, which `State::try_from_execution_session` and
+    `try_update_commitment_state` enforce, this is `S + n + 1 - R` without truncation.) -/
+def nextSeq (cfg : Cfg) (n : Nat) : Nat := cfg.seqStart + n + 1 - cfg.rollupStart
+
+/-- The check inside `map_rollup_number_to_sequencer_height`: error if `R > n + 1`. -/
+def mapOk (cfg : Cfg) (n : Nat) : Bool := decide (cfg.rollupStart ≤ n + 1)
+
+/-- `state::try_map_sequencer_height_to_rollup_height`: `h - S + R`, error on underflow. -/
+def seqToRollup (cfg : Cfg) (h : Nat) : Option Nat :=
+  if h < cfg.seqStart then none else some (h - cfg.seqStart + cfg.rollupStart)
+
+/-- The blocks `firm0 … soft0` the rollup already holds when the session starts, newest first.
+    Block `n` has hash `n - firm0 + 1`, parent hash `n - firm0` and was executed from sequencer
+    height `S + n - R`. -/
+def initBlocksAux (cfg : Cfg) : Nat → List Blk
+  | 0 => [⟨cfg.firm0, 1, 0, nextSeq cfg cfg.firm0 - 1⟩]
+  | k + 1 => ⟨cfg.firm0 + k + 1, k + 2, k + 1, nextSeq cfg (cfg.firm0 + k + 1) - 1⟩ :: initBlocksAux cfg k
+
+def initBlocks (cfg : Cfg) : List Blk := initBlocksAux cfg (cfg.soft0 - cfg.firm0)
+
+def initFirm (cfg : Cfg) : Blk := ⟨cfg.firm0, 1, 0, nextSeq cfg cfg.firm0 - 1⟩
+
+def initSoft (cfg : Cfg) : Blk :=
+  ⟨cfg.firm0 + (cfg.soft0 - cfg.firm0), cfg.soft0 - cfg.firm0 + 1, cfg.soft0 - cfg.firm0,
+   nextSeq cfg (cfg.firm0 + (cfg.soft0 - cfg.firm0)) - 1⟩
+
+def initCommit (cfg : Cfg) : Commit := ⟨initFirm cfg, initSoft cfg, cfg.cel0⟩
+
+/-! ## The contract-enforcing rollup -/
+
+inductive RErr where
+  | notHead            -- ExecuteBlock: parent is not the current soft head
+  | unknownBlock       -- UpdateCommitmentState names a block the rollup never produced
+  | firmExceedsSoft
+  | decrease           -- a commitment would move backwards
+  | noSuchBlock        -- GetExecutedBlockMetadata: no canonical block at that number
+  deriving DecidableEq, Repr
+
+inductive Res (α : Type) where
+  | ok (a : α)
+  | rej (e : RErr)
+  deriving DecidableEq, Repr
+
+structure Rollup where
+  blocks : List Blk      -- every block ever produced, newest first
+  c : Commit
+  nextId : Nat
+  deriving DecidableEq, Repr
+
+def Rollup.init (cfg : Cfg) : Rollup :=
+  ⟨initBlocks cfg, initCommit cfg, cfg.soft0 - cfg.firm0 + 2⟩
+
+/-- `ExecuteBlock`: only on top of the current soft head (as astria-geth does); the new block
+    gets the next number and a fresh hash. -/
+def Rollup.executeBlock (r : Rollup) (parent seq : Nat) : Res Blk × Rollup :=
+  if parent ≠ r.c.soft.id then (.rej .notHead, r)
+  else
+    let b : Blk := ⟨r.c.soft.number + 1, r.nextId, parent, seq⟩
+    (.ok b, { r with blocks := b :: r.blocks, nextId := r.nextId + 1 })
+
+/-- `UpdateCommitmentState`: both blocks must be blocks this rollup produced, firm ≤ soft,
+    neither commitment may move backwards. -/
+def Rollup.update (r : Rollup) (f s : Blk) (cel : Nat) : Res Commit × Rollup :=
+  if ¬ (f ∈ r.blocks ∧ s ∈ r.blocks) then (.rej .unknownBlock, r)
+  else if f.number > s.number then (.rej .firmExceedsSoft, r)
+  else if f.number < r.c.firm.number ∨ s.number < r.c.soft.number then (.rej .decrease, r)
+  else (.ok ⟨f, s, cel⟩, { r with c := ⟨f, s, cel⟩ })
+
+/-- `GetExecutedBlockMetadata(number)`. -/
+def Rollup.getBlock (r : Rollup) (n : Nat) : Res Blk :=
+  if n > r.c.soft.number then .rej .noSuchBlock
+  else match r.blocks.find? (fun b => b.number = n) with
+    | some b => .ok b
+    | none => .rej .noSuchBlock
+
+/-- The RPCs the rollup sees. -/
+inductive Rpc where
+  | exec (seq parent : Nat) (res : Res Blk)
+  | update (f s : Blk) (cel : Nat) (res : Res Unit)
+  | get (n : Nat) (res : Res Blk)
+  deriving DecidableEq, Repr
+
+/-! ## The executor -/
+
+inductive ErrKind where
+  | outOfOrder        -- soft: block above the expected height
+  | heightMismatch    -- firm: block ≠ expected height
+  | map               -- try_map_sequencer_height_to_rollup_height failed
+  | execute           -- ExecuteBlock RPC failed
+  | contract          -- does_block_response_fulfill_contract
+  | getBlock          -- GetExecutedBlockMetadata failed
+  | updateBuild       -- CommitmentState builder: firm exceeds soft
+  | updateRpc         -- UpdateCommitmentState RPC failed
+  | updateState       -- try_update_commitment_state: InvalidState
+  deriving DecidableEq, Repr
+
+inductive Outcome where
+  | ok
+  | dropped           -- stale soft block: `Ok(())` without any RPC
+  | err (k : ErrKind)
+  deriving DecidableEq, Repr
+
+def Outcome.isErr : Outcome → Bool
+  | .err _ => true
+  | _ => false
+
+/-- `blocks_pending_finalization: HashMap<u64, ExecutedBlockMetadata>` as an association list
+    sorted by key. -/
+def pendInsert (k : Nat) (v : Blk) : List (Nat × Blk) → List (Nat × Blk)
+  | [] => [(k, v)]
+  | (k', v') :: rest =>
+    if k < k' then (k, v) :: (k', v') :: rest
+    else if k = k' then (k, v) :: rest
+    else (k', v') :: pendInsert k v rest
+
+def pendLookup (k : Nat) : List (Nat × Blk) → Option Blk
+  | [] => none
+  | (k', v') :: rest => if k = k' then some v' else pendLookup k rest
+
+def pendErase (k : Nat) (l : List (Nat × Blk)) : List (Nat × Blk) := l.filter (fun e => e.1 ≠ k)
+
+/-- `Initialized`: the tracked `State` and the pending map. -/
+structure Exec where
+  c : Commit
+  pending : List (Nat × Blk)
+  deriving DecidableEq, Repr
+
+structure Sys where
+  cfg : Cfg
+  ex : Exec
+  ru : Rollup
+  deriving DecidableEq, Repr
+
+def Sys.init (cfg : Cfg) : Sys := ⟨cfg, ⟨initCommit cfg, []⟩, Rollup.init cfg⟩
+
+def Sys.nextSoft (s : Sys) : Nat := nextSeq s.cfg s.ex.c.soft.number
+def Sys.nextFirm (s : Sys) : Nat := nextSeq s.cfg s.ex.c.firm.number
+
+structure Out where
+  res : Outcome
+  rpcs : List Rpc
+  deriving DecidableEq, Repr
+
+/-- `enum Update`. -/
+inductive Update where
+  | onlyFirm (b : Blk) (cel : Nat)
+  | onlySoft (b : Blk)
+  | toSame (b : Blk) (cel : Nat)
+
+def Update.firm (s : Sys) : Update → Blk
+  | .onlyFirm b _ => b
+  | .onlySoft _ => s.ex.c.firm
+  | .toSame b _ => b
+
+def Update.soft (s : Sys) : Update → Blk
+  | .onlyFirm _ _ => s.ex.c.soft
+  | .onlySoft b => b
+  | .toSame b _ => b
+
+def Update.cel (s : Sys) : Update → Nat
+  | .onlyFirm _ c => c
+  | .onlySoft _ => s.ex.c.cel
+  | .toSame _ c => c
+
+/-- The `CommitLevel` handed to `try_update_commitment_state`. -/
+def Update.level : Update → Mode
+  | .onlyFirm _ _ => .firmOnly
+  | .onlySoft _ => .softOnly
+  | .toSame _ _ => .softAndFirm
+
+/-- `StateSender::try_update_commitment_state`: the mapping checks for the given level. -/
+def stateAccepts (cfg : Cfg) (lvl : Mode) (c : Commit) : Bool :=
+  (!lvl.withFirm || mapOk cfg c.firm.number) && (!lvl.withSoft || mapOk cfg c.soft.number)
+
+/-- `Initialized::update_commitment_state`. -/
+def updateCommitment (s : Sys) (u : Update) : Sys × Outcome × List Rpc :=
+  let f := u.firm s
+  let so := u.soft s
+  let cel := u.cel s
+  -- CommitmentState::builder()…build()
+  if f.number > so.number then (s, .err .updateBuild, [])
+  else
+    match s.ru.update f so cel with
+    | (.rej e, ru') => ({ s with ru := ru' }, .err .updateRpc, [.update f so cel (.rej e)])
+    | (.ok c', ru') =>
+      if stateAccepts s.cfg u.level c' then
+        ({ s with ru := ru', ex := { s.ex with c := c' } }, .ok, [.update f so cel (.ok ())])
+      else
+        ({ s with ru := ru' }, .err .updateState, [.update f so cel (.ok ())])
+
+/-- `Initialized::execute_soft`. -/
+def executeSoft (s : Sys) (h : Nat) : Sys × Out :=
+  let expected := s.nextSoft
+  if h < expected then (s, ⟨.dropped, []⟩)
+  else if h > expected then (s, ⟨.err .outOfOrder, []⟩)
+  else
+    match seqToRollup s.cfg h with
+    | none => (s, ⟨.err .map, []⟩)
+    | some bn =>
+      let parent := s.ex.c.soft.id
+      match s.ru.executeBlock parent h with
+      | (.rej e, ru') => ({ s with ru := ru' }, ⟨.err .execute, [.exec h parent (.rej e)]⟩)
+      | (.ok b, ru') =>
+        let s1 : Sys := { s with ru := ru' }
+        let x := Rpc.exec h parent (.ok b)
+        -- does_block_response_fulfill_contract(Soft)
+        if b.number ≠ s.ex.c.soft.number + 1 then (s1, ⟨.err .contract, [x]⟩)
+        else
+          match updateCommitment s1 (.onlySoft b) with
+          | (s2, .ok, rp) =>
+            ({ s2 with ex := { s2.ex with pending := pendInsert bn b s2.ex.pending } }, ⟨.ok, x :: rp⟩)
+          | (s2, o, rp) => (s2, ⟨o, x :: rp⟩)
+
+/-- `should_execute_firm_block`. -/
+def shouldExecuteFirm (firmSeq softSeq : Nat) : Mode → Bool
+  | .softAndFirm => decide (firmSeq = softSeq)
+  | .softOnly => false
+  | .firmOnly => true
+
+/-- `Initialized::execute_firm`. -/
+def executeFirm (s : Sys) (h cel : Nat) : Sys × Out :=
+  let expected := s.nextFirm
+  if h ≠ expected then (s, ⟨.err .heightMismatch, []⟩)
+  else
+    match seqToRollup s.cfg h with
+    | none => (s, ⟨.err .map, []⟩)
+    | some bn =>
+      if shouldExecuteFirm s.nextFirm s.nextSoft s.cfg.mode then
+        let parent := s.ex.c.firm.id
+        match s.ru.executeBlock parent h with
+        | (.rej e, ru') => ({ s with ru := ru' }, ⟨.err .execute, [.exec h parent (.rej e)]⟩)
+        | (.ok b, ru') =>
+          let s1 : Sys := { s with ru := ru' }
+          let x := Rpc.exec h parent (.ok b)
+          -- does_block_response_fulfill_contract(Firm)
+          if b.number ≠ s.ex.c.firm.number + 1 then (s1, ⟨.err .contract, [x]⟩)
+          else
+            match updateCommitment s1 (.toSame b cel) with
+            | (s2, o, rp) => (s2, ⟨o, x :: rp⟩)
+      else
+        match pendLookup bn s.ex.pending with
+        | some b =>
+          -- `blocks_pending_finalization.remove(&block_number)`
+          let s1 : Sys := { s with ex := { s.ex with pending := pendErase bn s.ex.pending } }
+          match updateCommitment s1 (.onlyFirm b cel) with
+          | (s2, o, rp) => (s2, ⟨o, rp⟩)
+        | none =>
+          -- fall back to asking the rollup; the client insists on the requested number
+          match s.ru.getBlock bn with
+          | .rej e => (s, ⟨.err .getBlock, [.get bn (.rej e)]⟩)
+          | .ok b =>
+            let g := Rpc.get bn (.ok b)
+            if b.number ≠ bn then (s, ⟨.err .getBlock, [g]⟩)
+            else
+              match updateCommitment s (.onlyFirm b cel) with
+              | (s2, o, rp) => (s2, ⟨o, g :: rp⟩)
+
+/-- A block handed to the executor by one of the readers. -/
+inductive Op where
+  | soft (h : Nat)
+  | firm (h cel : Nat)
+  deriving DecidableEq, Repr
+
+def step (s : Sys) : Op → Sys × Out
+  | .soft h => executeSoft s h
+  | .firm h cel => executeFirm s h cel
+
+/-- One delivery with everything observable about it. -/
+structure Event where
+  op : Op
+  res : Outcome
+  rpcs : List Rpc
+  deriving DecidableEq, Repr
+
+/-- Run a delivery sequence; the executor keeps going after an error (the real task exits on
+    the first error, i.e. it sees a prefix of such a run). -/
+def runFrom (s : Sys) : List Op → Sys × List Event
+  | [] => (s, [])
+  | op :: ops =>
+    let (s1, o) := step s op
+    let (s2, evs) := runFrom s1 ops
+    (s2, ⟨op, o.res, o.rpcs⟩ :: evs)
+
+def run (cfg : Cfg) (ops : List Op) : Sys × List Event := runFrom (Sys.init cfg) ops
+
+/-- The deliveries that can occur: a reader exists only for the commit levels that use it
+    (`Executor::init` spawns the Celestia reader iff `is_with_firm`, the sequencer reader iff
+    `is_with_soft`; the other channel's sender is dropped). -/
+def Op.admissible (m : Mode) : Op → Bool
+  | .soft _ => m.withSoft
+  | .firm _ _ => m.withFirm
+
+/-! ## `run_event_loop` over pre-filled channels -/
+
+/-- `Initialized::is_spread_too_large`. -/
+def Sys.spreadTooLarge (s : Sys) : Bool :=
+  s.cfg.mode.withFirm && decide (s.nextSoft - s.nextFirm ≥ s.cfg.lookahead)
+
+/-- The order in which `run_event_loop`'s `biased select!` takes blocks when both channels were
+    filled and closed beforehand: firm first; soft only while the spread is small; exit on the
+    first error or when nothing can be received. Returns the final system, whether the loop
+    ended with an error, the events, and the blocks left in the two channels. -/
+def runLoop (s : Sys) : List (Nat × Nat) → List Nat → Sys × Outcome × List Event × Nat × Nat
+  | (h, c) :: fs, ss =>
+    let (s1, o) := executeFirm s h c
+    let ev : Event := ⟨.firm h c, o.res, o.rpcs⟩
+    if o.res.isErr then (s1, o.res, [ev], fs.length, ss.length)
+    else
+      let (s2, r, evs, lf, ls) := runLoop s1 fs ss
+      (s2, r, ev :: evs, lf, ls)
+  | [], h :: ss =>
+    if s.spreadTooLarge then (s, .ok, [], 0, (h :: ss).length)
+    else
+      let (s1, o) := executeSoft s h
+      let ev : Event := ⟨.soft h, o.res, o.rpcs⟩
+      if o.res.isErr then (s1, o.res, [ev], 0, ss.length)
+      else
+        let (s2, r, evs, lf, ls) := runLoop s1 [] ss
+        (s2, r, ev :: evs, lf, ls)
+  | [], [] => (s, .ok, [], 0, 0)
+termination_by fs ss => fs.length + ss.length
+
+/-! ## `BlockCache` -/
+
+inductive CErr where
+  | zero        -- ZeroHeightsNotSupported
+  | old         -- Old
+  | occupied    -- Occupied
+  deriving DecidableEq, Repr
+
+/-- `BlockCache<T>`: `inner` is the `BTreeMap` as a list of (height, block tag). -/
+structure Cache where
+  inner : List (Nat × Nat)
+  next : Nat
+  deriving DecidableEq, Repr
+
+def Cache.withNextHeight (n : Nat) : Except CErr Cache :=
+  if n = 0 then .error .zero else .ok ⟨[], n⟩
+
+def cacheLookup (k : Nat) : List (Nat × Nat) → Option Nat
+  | [] => none
+  | (k', v) :: rest => if k = k' then some v else cacheLookup k rest
+
+/-- `pop`. -/
+def Cache.pop (c : Cache) : Option (Nat × Nat) × Cache :=
+  match cacheLookup c.next c.inner with
+  | none => (none, c)
+  | some tag => (some (c.next, tag), ⟨c.inner.filter (fun e => e.1 ≠ c.next), c.next + 1⟩)
+
+/-- `drop_obsolete`. -/
+def Cache.dropObsolete (c : Cache) (latest : Nat) : Cache :=
+  ⟨c.inner.filter (fun e => latest ≤ e.1), max c.next latest⟩
+
+/-- `insert` of a block whose header height is `h`. -/
+def Cache.insert (c : Cache) (h tag : Nat) : Except CErr Cache :=
+  if h < c.next then .error .old
+  else match cacheLookup h c.inner with
+    | some _ => .error .occupied
+    | none => .ok ⟨(h, tag) :: c.inner, c.next⟩
+
+inductive COp where
+  | insert (h tag : Nat)
+  | pop
+  | dropObsolete (h : Nat)
+  deriving DecidableEq, Repr
+
+inductive COut where
+  | inserted
+  | insertErr (e : CErr)
+  | popped (h tag : Nat)
+  | empty
+  | dropped
+  deriving DecidableEq, Repr
+
+def Cache.step (c : Cache) : COp → Cache × COut
+  | .insert h tag =>
+    match c.insert h tag with
+    | .ok c' => (c', .inserted)
+    | .error e => (c, .insertErr e)
+  | .pop =>
+    match c.pop with
+    | (some (h, tag), c') => (c', .popped h tag)
+    | (none, c') => (c', .empty)
+  | .dropObsolete h => (c.dropObsolete h, .dropped)
+
+def Cache.run (c : Cache) : List COp → Cache × List COut
+  | [] => (c, [])
+  | op :: ops =>
+    let (c1, o) := c.step op
+    let (c2, os) := Cache.run c1 ops
+    (c2, o :: os)
+
+/-- Heights handed out by `pop`, in order. -/
+def poppedHeights : List COut → List Nat
+  | [] => []
+  | .popped h _ :: rest => h :: poppedHeights rest
+  | _ :: rest => poppedHeights rest
 
 end Astria.Conductor
